@@ -1324,7 +1324,9 @@ class Real(base.SimpleAsn1Type):
     def __normalizeBase10(value):
         m, b, e = value
         while m and m % 10 == 0:
-            m /= 10
+            # floor division keeps an integer mantissa exact (true division
+            # would round it beyond 2**53 and overflow beyond 1e308)
+            m //= 10
             e += 1
         return m, b, e
 
